@@ -178,3 +178,30 @@ void t4_abbrevfind(void) {
     VEND();
 }
 #endif
+
+/* the library's own self-test (run by polyseed_inject when assertions are enabled)
+ * must not fail on the shipped list: sortedness under the real comparator, every
+ * word NFKD-stable, accented languages composed, separator normalising to a space.
+ * Build configuration "d" (no -DNDEBUG).  NFKD is a stub with the two Unicode facts
+ * that are validated separately with unicodedata: words are NFKD-stable (identity)
+ * and U+3000 decomposes to an ASCII space.                                        */
+#ifdef SELFCHECK
+#include "dependency.h"
+static size_t sc_nfkd(const char* str, polyseed_str norm) {
+    size_t n = 0;
+    while (*str != '\0' && n < POLYSEED_STR_SIZE - 1) {
+        if ((unsigned char)str[0] == 0xE3 && (unsigned char)str[1] == 0x80 && (unsigned char)str[2] == 0x80) { norm[n++] = ' '; str += 3; }
+        else norm[n++] = *str++;
+    }
+    norm[n] = '\0';
+    return n;
+}
+VF_DECL2(t4_selfcheck, in_t4_table)
+void t4_selfcheck(void) {
+    struct in_t4_table IN = VF_IN(t4_selfcheck);
+    (void)IN;
+    polyseed_deps.u8_nfkd = sc_nfkd;
+    polyseed_lang_check(&REAL);      /* its assert()s are the assertions */
+    VEND();
+}
+#endif
